@@ -298,6 +298,23 @@ def run(ctx):
                   f"`{gc.module.line(e.node.lineno)}` takes tokens [{T.show(lo)}:{T.show(hi)}] on a {'first' if first_line else 'continuation'} line that "
                   f"{'closes' if closes else 'continues'} the face; expected [{T.show(want_lo)}:{T.show(want_hi)}] (the face id is not an edge reference)")
     ctx.count("FORM", "face-line slices in get_cells", n_sl, 4)
+    # a saved face leaves nothing behind: wherever a face's edge loop is appended to the result, the accumulator is emptied and the
+    # "next line starts a face" flag is raised again, under the same conditions (a one-line face included)
+    saves = [e for e in sgc.events if e.kind == "call" and isinstance(e.fname, tuple) and e.fname[1] == "append" and e.loops() and e.args
+             and e.args[0][0] == "map" and e.args[0][1][0] == "call" and e.args[0][1][1] == "int"]
+    if not saves:
+        raise AnalysisError("get_cells: the append of a finished face's edge loop not found - re-bind the anchor")
+    for sv_ in saves:
+        C = set(sv_.conds())
+        later = [e for e in sgc.events if e.kind == "assign" and e.loops() and sgc.pos(e) > sgc.pos(sv_)]
+        emptied = [e for e in later if e.value == T.seq(()) and set(e.conds()) == C]
+        raised = [e for e in later if e.value == T.TRUE and set(e.conds()) == C]
+        part = [e for e in later if (e.value == T.seq(()) or e.value == T.TRUE) and set(e.conds()) > C]
+        ctx.check(bool(emptied) and bool(raised), "STATE", f"{gc.qualname} / STATE / accumulator emptied and first-line flag raised after every saved face", ctx.where(gc, sv_.node),
+                  "current_edge = []; first = True under the conditions of the save itself",
+                  "after a face is saved the token accumulator / first-line flag are " +
+                  (f"reset only under the additional condition {[T.show(c)[:50] for c in set(part[0].conds()) - C]}" if part else "not reset") +
+                  ": the next face starts with the previous face's edges still in the accumulator")
 
     ctx.clause("vertices and edges that belong to no face are dropped")
     ap = [e for e in rules.additions(sc) if e.loops()]
@@ -359,6 +376,7 @@ def _test_guards(test, k, len_guard):
 
 _P, _F = "forsys/surface_evolver.py", "forsys/frames.py"
 PINNED = [
+    ("face accumulator reset only for multi-line faces", "forsys/surface_evolver.py", "                    current_edge = []\n                    first = True", "                    if not first:\n                        current_edge = []\n                        first = True"),
     ("density looked up by position (id - 1)", _P, "round(edges_temp.loc[edges_temp['id'] == int(r.id)]['force'].iloc[0], 4)", "round(edges_temp['force'].get(int(r.id) - 1, 1), 4)"),
     ("section ranges cached in a module-level dict", _P, "@dataclass\nclass SurfaceEvolver:", "_section_index = {}\n\n\n@dataclass\nclass SurfaceEvolver:\n    def _remember(self):\n        _section_index[self.fname] = True\n"),
     ("single-line face reads its own id as an edge", _P, "                        current_edge = current_edge+splitted[1:-2]", "                        current_edge = current_edge+splitted[0:-2]"),
